@@ -410,3 +410,27 @@ theorem split_of_mem_nodup_filterMap {β κ : Type} (key : β → Option κ) (l 
   exact this.1 (List.mem_filterMap.mpr ⟨x, hx, e⟩)
 
 end PtLoad
+
+/-! ## which f0 entry an element or ion looks up -/
+namespace PtLoad
+
+def cmSuffixChar (c : Char) : Bool := "012345678+-".toList.contains c
+
+/-- for a symbol that does not end in a digit or sign, `fxrayatstol(symbol, ·, charge)` looks up
+    `symbol` itself for charge 0 and `symbol<|q| reversed><+|->` otherwise -/
+theorem cmKey_of_symbol (s : Str) (c : Char) (hc : cmSuffixChar c = false) (q : Int) :
+    cmKey (s ++ [c]) (some q)
+      = if q = 0 then s ++ [c]
+        else (s ++ [c]) ++ (toString q.natAbs).toList.reverse ++ [if q > 0 then '+' else '-'] := by
+  unfold cmKey
+  have hbase : ((s ++ [c]).reverse.dropWhile fun c => "012345678+-".toList.contains c).reverse = s ++ [c] := by
+    rw [List.reverse_append]
+    simp only [List.reverse_cons, List.reverse_nil, List.nil_append, List.singleton_append]
+    have hneg : ¬ ((fun c => "012345678+-".toList.contains c) c = true) := by
+      have : ("012345678+-".toList.contains c) = false := hc
+      simp only [this]; exact Bool.false_ne_true
+    rw [List.dropWhile_cons_of_neg hneg]
+    simp
+  simp only [hbase]
+
+end PtLoad
